@@ -664,4 +664,141 @@ theorem quote_sem (hE : ∀ s, ops.isEmpty s = (s == "")) (hfuel : bound + 1 ≤
   stage_run _ _ qpBody _ qp_shape qp_params (fun n i k w => qp_iter props ops splitN cfg lenOf parse fmtAny bound fuel hE hfuel n i k w) n w
 
 end quote
+/-! ### expressionTagAwarePostProcessors.PostProcessProperties -/
+section exprs
+variable (props : List SProp) (ops : ElOps String) (compile : String → Except String Nat) (runP : Nat → Except String Nat)
+  (fmtAny : Nat → Except String String) (bound fuel : Nat)
+
+abbrev XP := exprPrims props ops compile runP fmtAny bound fuel
+
+def xpBody : List Stmt := match Progs.expr_PostProcessProperties.body with | [.range _ _ _ b, _] => b | _ => []
+theorem xp_shape : Progs.expr_PostProcessProperties.body =
+    [.range "_" "prop" (.var "properties") xpBody, .ret [.nil, .nil]] := rfl
+theorem xp_params : Progs.expr_PostProcessProperties.params = ["properties", "component", "componentName"] := rfl
+
+def xpClosure : List String × List Stmt :=
+  match xpBody with
+  | [_, _, .define _ (.hcall _ _ ps b), _, _] => (ps, b)
+  | _ => ([], [])
+theorem xpBody_shape : xpBody =
+    [.ifs [] (.not (.call "self.el.MatchString" [.sel (.var "prop") "TagVal"])) [.cont] [],
+     .define ["rawTagVal"] (.sel (.var "prop") "TagVal"),
+     .define ["content", "err"] (.hcall "self.el.ReplaceAllContent" [.sel (.var "prop") "TagVal"] xpClosure.1 xpClosure.2),
+     .ifs [] (.bin "!=" (.var "err") .nil)
+       [.ret [.nil, .call "errors.WithMessagef" [.var "err", .str "execute expression language on '%s' failed", .var "prop"]]] [],
+     .store (.var "prop") "TagVal" (.var "content")] := rfl
+theorem xpClosure_params : xpClosure.1 = ["exp"] := rfl
+
+/-- the environment in which the function literal is built: `rawTagVal` is already defined -/
+def envX (n k : Nat) (raw : String) : Env := ("rawTagVal", .str raw) :: envQ n k
+
+open Lean.Parser.Tactic in
+macro "xp_simp" "[" ts:simpLemma,* "]" : tactic =>
+  `(tactic| go_simp [xpClosure, xpBody, Progs.expr_PostProcessProperties, XP, exprPrims, exprFn_Match, exprFn_TagVal,
+      exprFn_Compile, exprFn_Run, exprFn_FormatAny, exprFn_setTagVal, exprFn_Wrapf, exprFn_WithMessagef, envX, envQ, envS,
+      exprCb, encNatRes, encStrRes, $ts,*])
+
+def xpHandler (n k : Nat) (raw : String) : Handler SW := fun as w'' =>
+  if xpClosure.1.length = as.length then
+    match evalB (XP props ops compile runP fmtAny bound fuel) ((xpClosure.1.zip as) ++ envX n k raw) w'' xpClosure.2 with
+    | some (_, w3, .ret v) => some (v, w3)
+    | some (_, w3, .norm) => some (.tuple [], w3)
+    | _ => none
+  else none
+
+/-- the function literal IS `exprCb` -/
+theorem xp_closure (n k : Nat) (raw c : String) (w : SW) :
+    xpHandler props ops compile runP fmtAny bound fuel n k raw [.str c] w =
+      some (encStrRes (exprCb compile runP fmtAny c w).1, (exprCb compile runP fmtAny c w).2) := by
+  unfold xpHandler
+  rw [xpClosure_params]
+  simp only [List.length_cons, List.length_nil, if_true, List.zip_cons_cons, List.zip_nil_right]
+  cases hc : compile c with
+  | error e => xp_simp [hc]
+  | ok p =>
+    cases hr : runP p with
+    | error e => xp_simp [hc, hr]
+    | ok r => cases hf : fmtAny r <;> xp_simp [hc, hr, hf]
+
+theorem xp_hcall (hE : ∀ s, ops.isEmpty s = (s == "")) (n k : Nat) (w : SW) :
+    evalE (XP props ops compile runP fmtAny bound fuel) (envX n k (tagValNow props w k)) w
+        (.hcall "self.el.ReplaceAllContent" [.sel (.var "prop") "TagVal"] xpClosure.1 xpClosure.2) =
+      (elLoop ops (exprCb compile runP fmtAny) "unresolved" bound fuel 0 (tagValNow props w k) w).map
+        (fun r => (encElRes r.1, r.2)) := by
+  have h : evalE (XP props ops compile runP fmtAny bound fuel) (envX n k (tagValNow props w k)) w
+        (.hcall "self.el.ReplaceAllContent" [.sel (.var "prop") "TagVal"] xpClosure.1 xpClosure.2) =
+      elLoopK ops (xpHandler props ops compile runP fmtAny bound fuel n k (tagValNow props w k)) bound fuel 0 (tagValNow props w k) w := by
+    have hv : evalE (XP props ops compile runP fmtAny bound fuel) (envX n k (tagValNow props w k)) w (.sel (.var "prop") "TagVal") =
+        some (.str (tagValNow props w k), w) := by
+      go_simp [envX, envQ, envS, XP, exprPrims, exprFn_TagVal]
+    rw [evalE, evalEs, hv]
+    simp only [evalEs]
+    have key : ∀ (h1 h2 : Handler SW), (∀ as w'', h1 as w'' = h2 as w'') →
+        (XP props ops compile runP fmtAny bound fuel).hfn "self.el.ReplaceAllContent" [Val.str (tagValNow props w k)] h1 w =
+        (XP props ops compile runP fmtAny bound fuel).hfn "self.el.ReplaceAllContent" [Val.str (tagValNow props w k)] h2 w := by
+      intro h1 h2 hh
+      have : h1 = h2 := funext fun as => funext fun w'' => hh as w''
+      rw [this]
+    refine (key _ (xpHandler props ops compile runP fmtAny bound fuel n k (tagValNow props w k)) ?_).trans rfl
+    intro as w''
+    unfold xpHandler
+    by_cases hlen : xpClosure.1.length = as.length
+    · simp only [hlen, if_true]
+      cases evalB (XP props ops compile runP fmtAny bound fuel) (xpClosure.1.zip as ++ envX n k (tagValNow props w k)) w'' xpClosure.2 with
+      | none => rfl
+      | some r => obtain ⟨e, w3, c⟩ := r; cases c <;> rfl
+    · simp only [hlen, if_false]
+  rw [h]
+  exact elLoopK_total ops _ _ bound hE (fun c w' => xp_closure props ops compile runP fmtAny bound fuel n k _ c w') fuel 0 _ w
+
+theorem xp_iter (hE : ∀ s, ops.isEmpty s = (s == "")) (hfuel : bound + 1 ≤ fuel) (n i k : Nat) (w : SW) :
+    ∃ c, (evalB (XP props ops compile runP fmtAny bound fuel) (Env.def (Env.def (envS n) "_" (.int i)) "prop" (.ref k 20)) w xpBody).map
+        (fun (e', w'', ctl) => (Env.leave e' (envS n).length, w'', ctl)) =
+      some (envS n, (nodeStep (exprNode props ops compile runP fmtAny bound fuel) k () w).2.1, c) ∧
+      CtlMatches c (nodeStep (exprNode props ops compile runP fmtAny bound fuel) k () w).2.2 := by
+  have henv : Env.def (Env.def (envS n) "_" (.int i)) "prop" (.ref k 20) = envQ n k := rfl
+  rw [henv, xpBody_shape]
+  by_cases hm : ops.find (tagValNow props w k) = ""
+  · refine ⟨.cont, ?_, Or.inl ⟨?_, Or.inr rfl⟩⟩
+    · xp_simp [hm, nodeStep, exprNode]
+    · simp [nodeStep, exprNode, hm, stageRet]
+  · have hm' : (ops.find (tagValNow props w k) == "") = false := by simpa using hm
+    have hterm := elLoop_terminates (σ := SW) bound ops (exprCb compile runP fmtAny) "unresolved" fuel 0
+      (tagValNow props w k) w (by omega) (by omega)
+    rw [evalB_cons]
+    have h0 : evalS (XP props ops compile runP fmtAny bound fuel) (envQ n k) w
+        (.ifs [] (.not (.call "self.el.MatchString" [.sel (.var "prop") "TagVal"])) [.cont] []) = some (envQ n k, w, .norm) := by
+      xp_simp [hm, hm']
+    rw [h0]
+    simp only []
+    rw [evalB_cons]
+    have h1 : evalS (XP props ops compile runP fmtAny bound fuel) (envQ n k) w (.define ["rawTagVal"] (.sel (.var "prop") "TagVal")) =
+        some (envX n k (tagValNow props w k), w, .norm) := by
+      xp_simp []
+    rw [h1]
+    simp only []
+    rw [evalB_cons]
+    simp only [evalS]
+    rw [xp_hcall props ops compile runP fmtAny bound fuel hE n k w]
+    rcases hl : elLoop ops (exprCb compile runP fmtAny) "unresolved" bound fuel 0 (tagValNow props w k) w with _ | ⟨r, w'⟩
+    · rw [hl] at hterm; simp at hterm
+    · cases r with
+      | error e =>
+        refine ⟨.ret (.tuple [.nil, .str e]), ?_, Or.inr ⟨_, ?_, rfl⟩⟩
+        · xp_simp [encElRes, nodeStep, exprNode, hm, hm', hl]
+        · simp [nodeStep, exprNode, hm, hl, stageRet]
+      | ok r =>
+        refine ⟨.norm, ?_, Or.inl ⟨?_, Or.inl rfl⟩⟩
+        · xp_simp [encElRes, nodeStep, exprNode, hm, hm', hl]
+        · simp [nodeStep, exprNode, hm, hl, stageRet]
+
+/-- expressionTagAwarePostProcessors.PostProcessProperties, regenerated with its function literal -/
+theorem expr_sem (hE : ∀ s, ops.isEmpty s = (s == "")) (hfuel : bound + 1 ≤ fuel) (n : Nat) (w : SW) :
+    run (XP props ops compile runP fmtAny bound fuel) Progs.expr_PostProcessProperties
+        [.list ((List.range' 0 n).map (fun i => Val.ref i 20)), .str "c", .str "n"] w =
+      some (stageResult (stageLoop (exprNode props ops compile runP fmtAny bound fuel) (List.range' 0 n) w).2,
+            (stageLoop (exprNode props ops compile runP fmtAny bound fuel) (List.range' 0 n) w).1) :=
+  stage_run _ _ xpBody _ xp_shape xp_params (fun n i k w => xp_iter props ops compile runP fmtAny bound fuel hE hfuel n i k w) n w
+
+end exprs
 end Ioc.Sem
